@@ -46,7 +46,8 @@ TCall == /\ IsEvent("Call")
             /\ obs'.uin = t.uin /\ obs'.uout = t.uout
             /\ totalIn' = t.tin /\ totalOut' = t.tout
             /\ olen' = olen + t.uout
-            /\ stall' = IF t.uin = 0 /\ t.uout = 0 /\ t.ret = "OK" THEN stall + 1 ELSE 0
+            \* (a notification may be returned once, then progress must resume: Starve!StallBounded)
+            /\ stall' = IF t.uin = 0 /\ t.uout = 0 /\ t.ret \in {"OK", "NO_CHECK", "UNSUPPORTED_CHECK", "GET_CHECK"} THEN stall + 1 ELSE 0
             /\ stall' < StarveBound(coder)
          /\ UNCHANGED <<coder, one, exempt, gdig>>
 
